@@ -49,6 +49,8 @@ const (
 	c13xHSB   uint16 = 2
 
 	c13xFP = "C13:group-commit-crosstalk:"
+
+	c13xReportCap = 3
 )
 
 var c13xCtx = context.Background()
@@ -95,6 +97,9 @@ func c13xSideA(kind string) (seed [][]c13xCmd, batch []c13xCmd, stale bool) {
 			[]c13xCmd{{label: "mig-create:T2", data: fsm.EncodeCreateChannelMigrationTaskCommand(c13xTask("T2", 3))}}, true
 	case "user+leader-switch": // batch of two: the commit fails, the state machine re-applies one by one
 		return [][]c13xCmd{seedRTM}, []c13xCmd{c13xUserCmd("ua", "t"), c13xRTMCmd("rtm-upsert:a:e1l1L2", "a", 1, 1, 2)}, true
+	case "sub-add+leader-switch": // batch of two whose first command is NOT idempotent: its answer (changed count) reveals a partial write of the failed commit
+		return [][]c13xCmd{seedRTM}, []c13xCmd{{label: "sub-add:a:u1,u2:v1", data: fsm.EncodeAddSubscribersCommand("a", 2, []string{"u1", "u2"}, 1)},
+			c13xRTMCmd("rtm-upsert:a:e1l1L2", "a", 1, 1, 2)}, true
 	case "leader-epoch-bump": // control: valid, nothing fails
 		return [][]c13xCmd{seedRTM}, []c13xCmd{c13xRTMCmd("rtm-upsert:a:e1l2L2", "a", 1, 2, 2)}, false
 	}
@@ -158,8 +163,11 @@ func c13xApply(sm multiraft.StateMachine, slot uint64, hs uint16, cmds []c13xCmd
 	out := make([]string, len(res))
 	for i, r := range res {
 		out[i] = string(r)
-		if len(r) > 16 || strings.ContainsAny(out[i], "\x00\x01\x02\x03") {
-			out[i] = "0x" + hex.EncodeToString(r)
+		for _, c := range r {
+			if c < 0x20 || c > 0x7e { // binary result encodings (e.g. subscriber mutation counts)
+				out[i] = "0x" + hex.EncodeToString(r)
+				break
+			}
 		}
 	}
 	return out, ""
@@ -356,10 +364,12 @@ var (
 	c13xSeen          = map[string]int64{}
 	c13xFirstScenario = map[string]string{}
 	c13xRepeats       int64
+	c13xReported      = map[string]int{}
+	c13xReportedSched = map[string]bool{}
 	c13xInfra         string
 )
 
-func c13xJudge(s c13xSpec, ref *c13xRef, o *c13xObs) error {
+func c13xJudge(s c13xSpec, ref *c13xRef, o *c13xObs, sched string, replay bool) error {
 	if o == nil {
 		return nil
 	}
@@ -423,16 +433,24 @@ func c13xJudge(s c13xSpec, ref *c13xRef, o *c13xObs) error {
 				o.a.String(), c13xHSA, o.a.applied, ref.a.applied, bytes.Equal(o.a.snap, ref.a.snap), o.grouped)
 		}
 	}
-	// the first scenario exhibiting a fingerprint reports it (all its executions); in other
-	// scenarios the same fingerprint is only counted
+	// The first scenario exhibiting a fingerprint reports it, for its first c13xReportCap
+	// violating executions (the engine re-executes every reported violation twice and keeps
+	// one entry per fingerprint anyway); every further execution with that fingerprint - in
+	// this or in another scenario - is counted only.
 	for _, err := range errs {
 		fp := err.(interface{ Fingerprint() string }).Fingerprint()
+		key := fp + "|" + s.Name + "|" + sched
+		if replay || c13xReportedSched[key] {
+			return err // --replay, or the engine's confirming re-execution of a reported schedule
+		}
+		c13xSeen["violating-executions:"+strings.TrimPrefix(fp, c13xFP)]++
 		first, ok := c13xFirstScenario[fp]
 		if !ok {
-			c13xFirstScenario[fp] = s.Name
-			return err
+			c13xFirstScenario[fp], first = s.Name, s.Name
 		}
-		if first == s.Name {
+		if first == s.Name && c13xReported[fp] < c13xReportCap {
+			c13xReported[fp]++
+			c13xReportedSched[key] = true
 			return err
 		}
 		c13xRepeats++
@@ -440,7 +458,7 @@ func c13xJudge(s c13xSpec, ref *c13xRef, o *c13xObs) error {
 	return nil
 }
 
-func c13xScenario(s c13xSpec, ref *c13xRef) vsched.Scenario {
+func c13xScenario(s c13xSpec, ref *c13xRef, replay bool) vsched.Scenario {
 	_, batchA, _ := c13xSideA(s.A)
 	return vsched.Scenario{
 		Name: s.Name, Property: "C13", Bound: s.Bound, Horizon: 4000, Delay: true,
@@ -454,7 +472,7 @@ func c13xScenario(s c13xSpec, ref *c13xRef) vsched.Scenario {
 		},
 		Check: func(x *vsched.Exec) error {
 			o, _ := x.Data["obs"].(*c13xObs)
-			return c13xJudge(s, ref, o)
+			return c13xJudge(s, ref, o, fmt.Sprint(x.Out.Choices), replay)
 		},
 	}
 }
@@ -462,13 +480,14 @@ func c13xScenario(s c13xSpec, ref *c13xRef) vsched.Scenario {
 // ---------------------------------------------------------------- the check
 
 func c13xSpecs(r *ev.R) []c13xSpec {
-	deep := ev.Pick(r, 2, 4)
+	deep := ev.Pick(r, 3, 4)
 	wide := ev.Pick(r, 2, 3)
 	specs := []c13xSpec{
 		{Name: "xtalk-leader-switch-vs-first-rtm-AB", A: "leader-switch", B: "first-rtm", Order: "AB", Bound: deep},
-		{Name: "xtalk-leader-switch-vs-first-rtm-BA", A: "leader-switch", B: "first-rtm", Order: "BA", Bound: deep},
+		{Name: "xtalk-leader-switch-vs-first-rtm-BA", A: "leader-switch", B: "first-rtm", Order: "BA", Bound: ev.Pick(r, 2, 4)},
 		{Name: "xtalk-control-epoch-bump-vs-first-rtm-AB", A: "leader-epoch-bump", B: "first-rtm", Order: "AB", Bound: wide},
 		{Name: "xtalk-retention-no-meta-vs-user-BA", A: "retention-no-meta", B: "user", Order: "BA", Bound: wide},
+		{Name: "xtalk-sub-add+leader-switch-vs-first-rtm-AB", A: "sub-add+leader-switch", B: "first-rtm", Order: "AB", Bound: wide},
 	}
 	if r.Thorough() {
 		specs = append(specs,
@@ -521,7 +540,7 @@ func TestVerifC13Crosstalk(t *testing.T) {
 			continue
 		}
 		t0 := time.Now()
-		st := vsched.Explore(r, c13xScenario(s, ref))
+		st := vsched.Explore(r, c13xScenario(s, ref, r.Replay() != nil))
 		fmt.Printf("c13x: %-52s bound=%d executions=%d outcomes=%d exhaustive=%v violations=%d %.1fs\n", s.Name, s.Bound, st.Executions, st.Outcomes, st.Exhaustive, st.Violations, time.Since(t0).Seconds())
 		if c13xInfra != "" {
 			r.HarnessError("infrastructure failure inside an execution: %s", c13xInfra)
